@@ -85,7 +85,7 @@ def decode_stub(I, f, locs, node, frame):
 
 
 def eval_facade(prog, method, fspec, setname, kwmode, check_condition="fork", transport="sgio", sa=None, other_error="never",
-                after_all=False, history=()):
+                after_all=False, history=(), positional=False):
     """after_all: the evaluated call is the last of a sequence on one facade -- first each (method, fspec, sa) of
     ``history`` and then the same method, every one passing every optional argument (its own values); then the call
     described by kwmode; only that last one is reported"""
@@ -138,12 +138,21 @@ def eval_facade(prog, method, fspec, setname, kwmode, check_condition="fork", tr
             if fspec["blocksize"]:
                 byctor["blocksize"] = s.attrs["_blocksize"]
             bm = I.get_attr(s, method, None, _F("facade"))
-            r = I.call(bm, [], kw, None, _F("facade %s" % method))
+            pos = []
+            if positional:
+                # the leading parameters by position, in the order of the method's signature (as far as they are supplied)
+                # (the documented order -- spec/facade.py -- not whatever the current signature happens to name)
+                for fname in [f_ for f_, c_ in fspec["params"]] + list(reffacade.POSITIONAL_OPTIONALS.get(method, ())):
+                    if fname in kw:
+                        pos.append(kw.pop(fname))
+                    else:
+                        break
+            r = I.call(bm, pos, kw, None, _F("facade %s" % method))
             return (r, byctor, dev)
 
         for p in I.explore(thunk, max_paths=256):
             args = p.value[1] if p.returned else {}
-            fp = FacadePath(method, setname, kwmode, args, p, sa)
+            fp = FacadePath(method, setname, kwmode if not positional else kwmode + ", leading arguments by position", args, p, sa)
             if after_all:
                 fp.after_all = True
                 fp.history = [h[0] for h in history]
